@@ -11,7 +11,17 @@ def run(tier, seed):
     v = lib.Verdict(PID, tier, seed, "exploration")
     thorough = tier == "thorough"
     sc, vp, recs, unenc = E.check_and_gen(PID, "D2" if thorough else "D1", "D2", False, thorough)
-    obs = E.run_obs(PID, vp, {"borrowed": False, "seed": seed})
+    obs = E.run_obs(PID, vp, {"borrowed": False, "seed": seed, "history": True, "history_enc": True})
+    hist = [o for o in obs if o["id"] == "__history__"]
+    obs = [o for o in obs if o["id"] != "__history__"]
+    if len(hist) != 1 or hist[0]["failed_encodes"] < 100:
+        raise lib.ToolError("history phase of the harness did not run")
+    v.case("history")
+    for c in hist[0]["changed_enc"]:
+        v.violation("encoding is not a function of the value: after a history of failed encodes (over-long atoms, more atoms than a header lists) on the same thread "
+                    "a value is encoded to other bytes than before", {"value": E.short(c["value"], 300), "entry_points": c["which_differ"]})
+    for c in hist[0]["changed"]:
+        v.violation("decoding is not a function of the bytes: after a history of rejected inputs on the same thread a valid encoding decodes differently than before", c)
     by_id = {r["id"]: r for r in recs + unenc}
     # B1': the library's bytes, parsed by the TLA+ parser
     to_parse = [{"id": o["id"], "bytes": o["enc"]["bytes"]} for o in obs if o.get("enc", {}).get("ok") and not by_id[o["id"]].get("unenc")]
